@@ -497,3 +497,221 @@ Proof.
                         try lia; repeat (constructor; [cbn [b_seq b_n]; lia|]); try constructor|]).
   constructor.
 Qed.
+
+(* ------------------------------------------------------------------------------------------------------------
+   Open as a whole.  Store/OpenPath.v open_bytes is leveldb.Open (db.go openDB / recoverJournal / recoverJournalRO,
+   session.go recover / commit, session_util.go newManifest / flushManifest / fillRecord, db_util.go
+   checkAndCleanFiles) as ONE function on a storage image given as bytes — the meta pointer and every manifest,
+   journal and table file — built by calling the models of the layers: the journal reader (C12), the manifest
+   record codec and session.recover's replay (above), recoverJournal's choice and the janitor (C07, Store/Sweep.v),
+   decodeBatchToMem (C01, Codec/Batch.v), the memdb (C14), the table writer (C13) for the flushes of the recovery,
+   the byte-level DB state of Lsm/ReadPath.v as the result.  Errors are explicit where the Go code returns them
+   (strict / non-strict flags are options).  Tied to the code on every run by the KOpenBytes correspondence: real
+   crash images, every file as bytes, through the real Open.
+
+   Vocabulary of the statements below (Store/OpenPathProofs.v, Store/OpenCrashProofs.v):
+     image_ok o img m mrecs ks js     img is a byte-level crash image: the meta pointer names manifest m, whose file is
+                                      what a crash can leave (is_crash_bytes: cut anywhere behind the synced bytes,
+                                      anything behind the cut under no_forgery_tail) of the journal framing of the
+                                      records mrecs, ks of them synced, each given with bytes that decode to it; the
+                                      journal files are js (ascending), each what a crash can leave of the framing of
+                                      its batches' records (Codec/Batch.v group_record), with its synced count;
+     manifest_ok                      every admissible prefix of the manifest passes session.recover's checks
+                                      (true of what goleveldb writes: a manifest starts with a snapshot record);
+     denotes newb f s mrecs ks jfz jl the described storage is a storage of the state s of the record-level model
+                                      Store/Crash.v: its live / frozen journals hold the batches of jl / jfz, its
+                                      manifest the edits the records denote (medit_of with the ghost labelling newb
+                                      of tables by the batches they newly make durable), under an order embedding f
+                                      of the real file numbers into the model's 1, 2, 3, …;
+     accepted bs cur                  what the sequence rule of decodeBatchToMem accepts of bs from the running number cur.
+   Proved for images of every state with pinv (every reachable state: C04_invariant_reachable), non-strict flags
+   (StrictManifest / StrictJournal make Open fail on a torn tail by design).                                     *)
+From GL Require Import Codec.IKey Codec.Table Codec.Batch Lsm.Lsm Lsm.History Lsm.ReadPath Lsm.ReadPathMem
+  Lsm.ReadPathProofs Lsm.BatchWriteProofs Store.OpenPath Store.OpenJournalProofs Store.OpenPathProofs
+  Store.OpenEndProofs Store.OpenCrashProofs Store.OpenExample.
+From GL Require Import Codec.BytesCmp Codec.TblCrc Gen.Inst Gen.InstTbl Gen.InstMem.
+From GL Require Mem.MemDB Store.Sweep.
+
+(* READ-ONLY Open (recoverJournalRO) — full.  On every byte-level image of a state s of the record-level model,
+   Open succeeds; the record-level image rimg it read is an image of s; recover of rimg is exactly: the batches the
+   manifest's tables make durable, then the batches Open kept from the journals, in order, each with its first
+   sequence number and count; db.seq is the model's running number; hence every acknowledged batch is kept, only
+   issued batches are, in issue order (crash_safe).  The live buffer satisfies C14's invariant and holds exactly the
+   stamped records of the kept batches; the version is the manifest prefix's live table set, level by level;
+   nothing was written to the storage. *)
+Theorem C04_open_ro_refines_recover :
+  forall jcrc jp, jparams_ok jp -> forall rp, rparams_ok rp -> forall kp, kparams_ok kp ->
+  (keyTypeSeek kp <= keyTypeVal kp)%N -> forall mp, MemDB.mparams_ok mp ->
+  forall tp tcrc compress snappy fgen blockSize ri c, comparer_ok c ->
+  forall o hts img m mrecs ks jfz jl newb f s,
+  oo_strict_man o = false -> oo_strict_j o = false -> oo_ro o = true -> oo_err_exist o = false ->
+  heights_okl mp hts ->
+  image_ok jcrc jp rp kp o img m mrecs ks (olist jfz ++ [jl]) -> manifest_ok rp o mrecs ks -> no_prev rp mrecs ->
+  jnums_ok jfz jl -> order_embedding f -> f 0 = 0 -> pinv s -> denotes rp newb f s mrecs ks jfz jl ->
+  exists r rimg k j nf q live cps lv bss d,
+    open_bytes jcrc jp rp kp 12 mp tp tcrc compress snappy fgen blockSize ri c o hts img = OOk r /\
+    is_image s (image_map f rimg) /\ (ks <= k)%nat /\
+    replay_result rp (oo_cmp_name o) (firstn k (map fst mrecs)) = SpecOk j 0%Z nf q live cps /\
+    recover_full rimg = (os_seq r, flat_map newb (flat_map SessionRecord.sr_adds (firstn k (map fst mrecs))) ++ map pair_batch (os_kept r)) /\
+    recover (image_map f rimg) = recover rimg /\
+    (forall b, In b (p_acked s) -> In b (recover rimg)) /\
+    (forall b, In b (recover rimg) -> In b (p_issued s)) /\
+    sorted_b (recover rimg) /\
+    os_seq r = snd (accepted (concat bss) q) /\
+    os_kept r = map jb_pair (fst (accepted (concat bss) q)) /\
+    (forall b, In b (concat bss) -> In b (jd_bs jl) \/ exists jf, jfz = Some jf /\ In b (jd_bs jf)) /\
+    os_bs r = mkBS (Some d) None (levels_of (si_files img) (sort_levels c lv)) /\
+    (forall l : nat, nth l lv [] = live_at (Z.of_nat l) live) /\
+    mem_ok c kp mp d /\
+    (forall x, In x (mem_entries mp (Some d)) <-> In x (flat_map (jb_entries kp) (fst (accepted (concat bss) q)))) /\
+    os_image r = img /\ os_removed r = [].
+Proof. exact open_ro_refines_recover. Qed.
+Print Assumptions C04_open_ro_refines_recover.
+
+(* ... and what that DB ANSWERS.  tables_answer is the statement of C01 / C06 / C13 about the tables the manifest
+   prefix names: a well-formed byte-level layout (wf_bstate) that answers like the plain map of the batches those
+   tables make durable (flushes and compactions keep that: C01_get_is_map_bytes), read at a sequence number s0 that
+   nothing in the tables exceeds and below which every journal batch the sequence rule accepts starts (s0 = the
+   recorded number after a flush at run time; one less when a recovery wrote the manifest, which records last + 1).
+   Then the state Open returns is well-formed and DB.Get computed on its BYTES (db_get_bytes) at db.seq returns,
+   for every key, what the plain map driven by L returns — L a list of batches with acked ⊆ L ⊆ issued, in issue
+   order, every batch whole (cmap applies all records of a batch). *)
+Theorem C04_open_ro_end_to_end :
+  forall jcrc jp, jparams_ok jp -> forall rp, rparams_ok rp -> forall kp, kparams_ok kp ->
+  (keyTypeSeek kp <= keyTypeVal kp)%N -> forall mp, MemDB.mparams_ok mp ->
+  forall tp tcrc compress snappy fgen blockSize ri c, comparer_ok c ->
+  forall decompress fname ufc verify o hts img m mrecs ks jfz jl newb cont f s,
+  oo_strict_man o = false -> oo_strict_j o = false -> oo_ro o = true -> oo_err_exist o = false ->
+  heights_okl mp hts ->
+  image_ok jcrc jp rp kp o img m mrecs ks (olist jfz ++ [jl]) -> manifest_ok rp o mrecs ks -> no_prev rp mrecs ->
+  jnums_ok jfz jl -> order_embedding f -> f 0 = 0 -> pinv s -> denotes rp newb f s mrecs ks jfz jl ->
+  journal_batches_ok kp cont jfz jl ->
+  tables_answer rp kp mp tp tcrc ri c decompress fname ufc verify o img mrecs ks newb cont jfz jl ->
+  exists r L,
+    open_bytes jcrc jp rp kp 12 mp tp tcrc compress snappy fgen blockSize ri c o hts img = OOk r /\
+    wf_bstate c kp mp tp tcrc decompress fname ufc verify ri (os_bs r) /\
+    (forall b, In b (p_acked s) -> In b L) /\ (forall b, In b L -> In b (p_issued s)) /\ sorted_b L /\
+    os_image r = img /\
+    forall key, wf_bytes key ->
+      bapi (db_get_bytes c kp mp tp tcrc decompress fname ufc verify (os_bs r) key (os_seq r)) =
+      Some (a_get c key (cmap kp c cont [] L)).
+Proof. exact open_ro_end_to_end. Qed.
+Print Assumptions C04_open_ro_end_to_end.
+
+(* READ-WRITE Open (recoverJournal: flush when the buffer fills, one commit per replayed journal, a new journal and
+   a last commit, the janitor) — PARTIAL: the partial-correctness half.  WHENEVER open_bytes returns a DB on such
+   an image, the record-level image it read is an image of s and recover of it is: the batches of the manifest's
+   tables, then the batches kept (now all flushed into tables: the buffer is empty), with db.seq the model's running
+   number; hence acked ⊆ kept ⊆ issued in order.  NOT proved (exercised on every run by KOpenBytes, which compares
+   the flushed tables and the new manifest byte for byte with the real ones): that it does return — the table writer
+   model accepts the buffer's keys, sessionRecord.encode meets no negative number, the janitor finds every table —
+   and the contents of the flushed tables (C13's writer/reader round trip for iComparer + C06_flush_step at byte
+   level), hence no read-write counterpart of C04_open_ro_end_to_end. *)
+Theorem C04_open_rw_refines_recover_partial :
+  forall jcrc jp, jparams_ok jp -> forall rp, rparams_ok rp -> forall kp, kparams_ok kp ->
+  (keyTypeSeek kp <= keyTypeVal kp)%N -> forall mp, MemDB.mparams_ok mp ->
+  forall tp tcrc compress snappy fgen blockSize ri c, comparer_ok c ->
+  forall o hts img m mrecs ks jfz jl newb f s r,
+  oo_strict_man o = false -> oo_strict_j o = false -> oo_ro o = false -> oo_err_exist o = false ->
+  heights_okl mp hts ->
+  image_ok jcrc jp rp kp o img m mrecs ks (olist jfz ++ [jl]) -> manifest_ok rp o mrecs ks -> no_prev rp mrecs ->
+  jnums_ok jfz jl -> order_embedding f -> f 0 = 0 -> pinv s -> denotes rp newb f s mrecs ks jfz jl ->
+  open_bytes jcrc jp rp kp 12 mp tp tcrc compress snappy fgen blockSize ri c o hts img = OOk r ->
+  exists rimg k j nf q live cps d,
+    is_image s (image_map f rimg) /\ (ks <= k)%nat /\
+    replay_result rp (oo_cmp_name o) (firstn k (map fst mrecs)) = SpecOk j 0%Z nf q live cps /\
+    recover_full rimg = (os_seq r, flat_map newb (flat_map SessionRecord.sr_adds (firstn k (map fst mrecs))) ++ map pair_batch (os_kept r)) /\
+    (forall b, In b (p_acked s) -> In b (recover rimg)) /\
+    (forall b, In b (recover rimg) -> In b (p_issued s)) /\
+    sorted_b (recover rimg) /\
+    bs_mem (os_bs r) = Some d /\ mem_entries mp (Some d) = [] /\ bs_frozen (os_bs r) = None.
+Proof. exact open_rw_refines_recover_partial. Qed.
+Print Assumptions C04_open_rw_refines_recover_partial.
+
+(* Idempotence.  Read-only Open writes nothing — on ANY storage image and with any options: the storage afterwards
+   is the image, no Remove, no commit — so opening what it left is opening the same image (full).  For read-write
+   Open the statement "opening the image a successful Open leaves (new manifest, new journal, flushed tables, the
+   janitor's removals) yields the same abstraction" is evaluated on the example below, compared with the real code
+   by KOpenBytes on images that are themselves left by recoveries, and checked on the implementation by the
+   harness' second-Open oracle on every case; it is not proved in general. *)
+Theorem C04_open_ro_leaves_image :
+  forall jcrc jp rp kp mp tp tcrc compress snappy fgen blockSize ri c o hts img r,
+  oo_ro o = true ->
+  open_bytes jcrc jp rp kp 12 mp tp tcrc compress snappy fgen blockSize ri c o hts img = OOk r ->
+  os_image r = img /\ os_removed r = [] /\ os_commits r = [] /\ os_journal r = None.
+Proof. exact open_ro_leaves_image. Qed.
+Print Assumptions C04_open_ro_leaves_image.
+
+Theorem C04_open_ro_idempotent :
+  forall jcrc jp rp kp mp tp tcrc compress snappy fgen blockSize ri c o hts img r,
+  oo_ro o = true ->
+  open_bytes jcrc jp rp kp 12 mp tp tcrc compress snappy fgen blockSize ri c o hts img = OOk r ->
+  open_bytes jcrc jp rp kp 12 mp tp tcrc compress snappy fgen blockSize ri c o hts (os_image r) = OOk r.
+Proof. exact open_ro_idempotent. Qed.
+Print Assumptions C04_open_ro_idempotent.
+
+(* Non-vacuity (Store/OpenExample.v): a storage image built with the model's own writers — real CRC-32C, generated
+   constants, 32 KiB blocks — for the state of C04_crash_safe_bytes_nonvacuous (a synced batch Put a, Delete b; an
+   unsynced batch Put c): MANIFEST-0 with its snapshot record, journal 1 cut 13 bytes into the second record and
+   followed by zeros, no tables.  Every hypothesis of C04_open_ro_end_to_end holds of it (image_ok with
+   no_forgery_tail by computation, manifest_ok, denotes under f = identity, tables_answer for the empty version), so
+   the theorem applies: *)
+Example C04_open_ro_end_to_end_nonvacuous :
+  exists r L,
+    ox_open (ox_opts true) [] ox_img = OOk r /\
+    wf_bstate bytewise kp mp tblp tbl_crc (fun _ => None) None (fun _ _ _ => true) true 16 (os_bs r) /\
+    (forall b, In b (p_acked ox_state) -> In b L) /\ (forall b, In b L -> In b (p_issued ox_state)) /\ sorted_b L /\
+    os_image r = ox_img /\
+    forall key, wf_bytes key ->
+      bapi (db_get_bytes bytewise kp mp tblp tbl_crc (fun _ => None) None (fun _ _ _ => true) true (os_bs r) key (os_seq r)) =
+      Some (a_get bytewise key (cmap kp bytewise ox_cont [] L)).
+Proof. exact ox_end_to_end. Qed.
+
+(* ... read-write Open of the same image, evaluated: db.seq 3, the synced batch (first number 1, two records) kept,
+   flushed into table 2, new journal 3, new manifest 4, the old manifest and journal removed; and opening what it
+   left: the same sequence number and table, nothing replayed, manifest 4 and journal 3 replaced by 6 and 5, the SAME
+   abstraction (Lsm/ReadPath.v abs: buffers and tables as entry lists), which holds the batch's two entries *)
+Example C04_open_rw_nonvacuous :
+  ox_rw_summary (ox_open (ox_opts false) [] ox_img) =
+    Some (3, [(1, 2)], [[2]], Some 3, Some 4, [(Sweep.FManifest, 0); (Sweep.FJournal, 1)]) /\
+  image_ok jcrc jp rp kp (ox_opts false) ox_img 0 ox_mrecs 1 (olist None ++ [ox_jl]) /\
+  ox_rw_summary ox_r2 = Some (3, [], [[2]], Some 5, Some 6, [(Sweep.FManifest, 4); (Sweep.FJournal, 3)]) /\
+  ox_abs ox_r2 = ox_abs ox_r1 /\
+  option_map (fun st => length (all_entries st)) (ox_abs ox_r1) = Some 2%nat.
+Proof. exact (conj ox_rw_opens (conj ox_image_ok_rw ox_rw_idempotent)). Qed.
+
+(* The real file storage.  open_dir is Open on a directory (name -> content) of leveldb/storage's file storage: the
+   meta pointer is what GetMeta answers (Store/FileStorage.v get_meta, the model behind C04_setmeta_crash_atomic in
+   Props/C04FS.v), the files are those whose names parse.  Composition with that theorem: while setMeta(B) is in
+   progress on a directory settled on A — any prefix of its file-system operations, any loss of unsynced directory
+   effects — Open sees the directory's files under the pointer A or under the pointer B, never anything else, so the
+   theorems above apply to one of those two abstract images.  (The CURRENT protocol itself, the name codec and the
+   locks are C18 / C04FS; the files other than CURRENT* are taken here as the abstract storage's files.) *)
+From GL Require Store.FileStorage Store.FileStorageCrashProofs.
+Theorem C04_open_dir_setmeta_crash :
+  forall jcrc jp rp kp bhl mp tp tcrc compress snappy fgen blockSize ri c o hts s A B K i0 k v,
+  FileStorageCrashProofs.clean s A A K i0 -> In (FileStorage.gen_name A) K -> In (FileStorage.gen_name B) K ->
+  (FileStorage.fd_num A < FileStorage.fd_num B)%Z ->
+  FileStorage.int64_ok (FileStorage.fd_num A) = true -> FileStorage.int64_ok (FileStorage.fd_num B) = true ->
+  FileStorage.crash_image (FileStorage.fapply_all s (firstn k (FileStorage.set_meta_ops (FileStorage.vol_view s) B))) v ->
+  let ob := open_bytes jcrc jp rp kp bhl mp tp tcrc compress snappy fgen blockSize ri c o hts in
+  open_dir jcrc jp rp kp bhl mp tp tcrc compress snappy fgen blockSize ri c o hts v =
+    ob (mkSI (Some (Z.to_N (FileStorage.fd_num A))) (dir_files v)) \/
+  open_dir jcrc jp rp kp bhl mp tp tcrc compress snappy fgen blockSize ri c o hts v =
+    ob (mkSI (Some (Z.to_N (FileStorage.fd_num B))) (dir_files v)).
+Proof. exact open_dir_setmeta_crash. Qed.
+Print Assumptions C04_open_dir_setmeta_crash.
+
+(* One of the three gaps of C04_open_rw_refines_recover_partial, closed: the recovery's flushes cannot fail.  The
+   table writer model's Append refuses a key only when it is not above the previous one, and a buffer that
+   satisfies C14's invariant lists its keys in strictly increasing iComparer order — so session.flushMemdb always
+   produces a table (open_bytes never returns OEFlush from such a buffer).  Left: sessionRecord.encode (no negative
+   number) and the janitor (every named table is found). *)
+From GL Require Import Store.OpenRwProofs.
+Theorem C04_open_flush_total :
+  forall rp kp, (keyTypeSeek kp <= keyTypeVal kp)%N -> forall mp, MemDB.mparams_ok mp ->
+  forall tp tcrc compress snappy fgen blockSize ri c st,
+  mem_ok c kp mp (r_mdb st) ->
+  exists st', flush_memdb rp kp mp tp tcrc compress snappy fgen blockSize ri c st = OOk st'.
+Proof. exact flush_memdb_total. Qed.
+Print Assumptions C04_open_flush_total.
